@@ -5,7 +5,6 @@
 From V.model Require Import Base RelLex RelParse RelAcc RelGrammar RelEdit RelEditSpec RelEditTree RelLive.
 From V.proofs Require Import BaseP RelEditP RelEditStP RelEditHistP RelEditTreeP RelEditReplaceP RelGrammarAccP.
 From V.proofs Require Import RelLiveP.
-Set Default Timeout 60.
 
 (* ------------------------------------------------------------------ attaching a child that sits inside another tree *)
 Lemma attach_child_sub ts rs pr cr tid ri T p kd cs idx tc rc Tc pc ic C :
